@@ -222,7 +222,7 @@ func Drive(ch *Check, tier string, seed int64, root string, workers int, self st
 			defer wg.Done()
 			of := filepath.Join(tmp, fmt.Sprintf("shard-%d.json", i))
 			cmd := exec.Command(self, "worker", ch.ID, tier, strconv.Itoa(i), strconv.Itoa(workers), of)
-			cmd.Env = append(os.Environ(), "GOMAXPROCS=2", "VERIF_SEED="+strconv.FormatInt(seed, 10))
+			cmd.Env = append(os.Environ(), "GOMAXPROCS=1", "VERIF_SEED="+strconv.FormatInt(seed, 10))
 			cmd.Stderr = os.Stderr
 			var sb strings.Builder
 			cmd.Stdout = &sb
@@ -356,8 +356,18 @@ func Finish(ch *Check, c *Ctx, root string, wall time.Duration) int {
 	}
 	exhaustive := len(c.Inexhaustive) == 0 && len(c.Internal) == 0
 	sets := map[string]int{}
+	setEx := map[string][]string{}
 	for k, v := range c.Sets {
 		sets[k] = len(v)
+		var el []string
+		for e := range v {
+			el = append(el, e)
+		}
+		sort.Strings(el)
+		if len(el) > 12 {
+			el = el[:12]
+		}
+		setEx[k] = el
 	}
 	if len(c.Samples) == 0 {
 		c.Samples = append(c.Samples, "no case was explored")
@@ -367,7 +377,7 @@ func Finish(ch *Check, c *Ctx, root string, wall time.Duration) int {
 		"states": states, "transitions": trans, "traces_validated_against_impl": c.Executions,
 		"evaluations": c.Evaluations, "distinct_nontrivial": c.Nontrivial, "rule": ch.Rule,
 		"samples": c.Samples, "exhaustive": exhaustive, "caps_hit": c.Inexhaustive,
-		"counters": c.Counters, "distinct_sets": sets, "notes": c.Notes,
+		"counters": c.Counters, "distinct_sets": sets, "distinct_sets_examples": setEx, "notes": c.Notes,
 		"known_findings_seen": knownKeys, "finding_counts": c.FindCount, "internal_errors": c.Internal,
 		"explanation": "every explored trace is an execution of the real (instrumented) implementation; states/transitions are the nodes/edges of the explored space as defined in rule",
 	}
